@@ -207,19 +207,17 @@ def run_scenario(cfg, steps, d, tag):
 
 # ----------------------------------------------------------------------------------------------------
 def gen_configs(rnd, tier):
-    n = 8 if tier == "quick" else 60
+    """cluster sizes 1..7; default quorum (odd and even sizes), configured quorums, a refused one"""
+    fixed = [(1, -1), (2, -1), (3, -1), (4, -1), (5, 2), (7, -1), (3, 1), (4, 4), (6, -1), (3, 4)]
+    pairs = fixed[:8] if tier == "quick" else list(fixed)
+    if tier != "quick":
+        for _ in range(50):
+            size = rnd.randint(1, 7)
+            r = rnd.random()
+            pairs.append((size, -1 if r < 0.5 else (rnd.randint(1, size) if r < 0.9 else size + 1)))   # size+1: refused at start-up (config.rs:195)
     out = []
-    sizes = [1, 2, 3, 3, 4, 5, 7, 3] if tier == "quick" else None
-    for i in range(n):
-        size = sizes[i] if sizes else rnd.randint(1, 7)
+    for size, quorum in pairs:
         peers = ["n%d" % (k + 2) for k in range(size - 1)]
-        r = rnd.random()
-        if r < 0.5:
-            quorum = -1
-        elif r < 0.9:
-            quorum = rnd.randint(1, size)
-        else:
-            quorum = size + 1            # refused at start-up (config.rs:195)
         out.append({"me": "n1", "peers": peers, "foreign": ["x8", "x9"], "quorum": quorum, "prio": 100,
                     "suicide": rnd.random() < 0.7})
     return out
